@@ -1,10 +1,73 @@
 /-
 C15 — Definitions table aligns all definitions at one cluster column.
-(first instalment; the per-paragraph shape follows in CompositeLemmas)
+(a) clauses proved of the SPECIFICATION `Spec.defTable` (every token type); (b) the shape of the MODEL of
+InsertDefinitionsTableOpts at cluster level.
 -/
 import RosedVerif.Model.InstAFacts
+import RosedVerif.Model.CompositeLemmas
+import RosedVerif.Spec.CompositeLemmas
+import RosedVerif.Model.Totality2
 namespace RosedVerif.Props
 open RosedVerif
+
+/-- in every line of every paragraph the definition text starts at cluster column T + 6, T = the
+longest term: line 0 is `··term<pad to T>··-·first`, continuation lines are T + 6 spaces + line -/
+theorem C15_column {α : Type} (tk : Spec.Toks α) (T : Nat) (w : Int) (term defn : List α) (ht : term.length ≤ T)
+    (i : Nat) (hi : i < (Spec.defParagraph tk T w term defn).length) :
+    ∃ pre, (Spec.defParagraph tk T w term defn)[i] = pre ++ (Spec.defLines tk T w defn).getD i [] ∧
+      pre.length = T + 6 ∧
+      (i = 0 → pre = [tk.sp, tk.sp] ++ Spec.padTo tk T term ++ [tk.sp, tk.sp, tk.hy, tk.sp]) ∧
+      (i ≠ 0 → pre = List.replicate (T + 6) tk.sp) :=
+  Spec.defParagraph_column tk T w term defn ht i hi
+
+/-- every term is at most T wide, so the clause applies to every paragraph -/
+theorem C15_terms_fit {α : Type} (defs : List (List α × List α)) :
+    ∀ d ∈ defs, d.1.length ≤ defs.foldl (fun m d => max m d.1.length) 0 := Spec.term_le_T defs
+
+/-- paragraphs appear in input order, one per definition; an empty list produces none -/
+theorem C15_paragraphs {α : Type} (tk : Spec.Toks α) (defs : List (List α × List α)) (w : Int) :
+    (Spec.defTable tk defs w).length = defs.length := Spec.defTable_length tk defs w
+
+/-- **the model** at cluster level: the inserted text is the paragraph-separator join of the
+paragraphs, each the line-separator join of its lines, plus the trailing separator policy; the
+wrapped lines of a definition are `defRc (colLines …)`: a whitespace-only definition (no wrapped
+line) is treated like the empty one (one empty line) … -/
+theorem C15_model {α : Type} [DecidableEq α] (cx : Ctx α) (htriv : ∀ s, cx.ends s = List.range' 1 s.length)
+    (hsp : cx.isSpace cx.sp = true) (ed : Editor α) (pos : Int) (defs : List (List α × List α)) (width : Int)
+    (o : Options α) (hne : defs ≠ []) :
+    ed.insertDefTableOpts cx pos defs width o =
+      ed.insert cx pos
+        (joinWith (o.withDefaults cx).paraSep (defs.map fun item =>
+          joinWith (o.withDefaults cx).lineSep
+            (defParaLines cx (maxLineLen (defs.map (·.1))) item.1
+              (defRc (colLines cx item.2
+                (max (width - ((maxLineLen (defs.map (·.1)) : Int) + 2) - 2 - 2) 2)
+                (o.withDefaults cx).lineSep)))) ++
+          (if (o.withDefaults cx).noTrailing = true then [] else (o.withDefaults cx).lineSep)) :=
+  insertDefTableOpts_triv_text cx htriv hsp ed pos defs width o hne
+
+/-- … and in every line of a model paragraph the definition text starts at column T + 6 -/
+theorem C15_model_column {α : Type} [DecidableEq α] (cx : Ctx α) (T : Nat) (term : List α) (hT : term.length ≤ T)
+    (rc : List (List α)) (i : Nat) (hi : i < rc.length) (h : i < (defParaLines cx T term rc).length) :
+    (defParaLines cx T term rc)[i].drop (T + 6) = rc.getD i [] := defParaLines_drop cx T term hT rc i hi h
+
+/-- … and with the model's `defRc` this holds for EVERY definition (no `rc ≠ []` needed): the
+wrapped lines are never empty, the paragraph has one line per wrapped line, its first line carries
+the `- ` marker, and the definition text starts at column T + 6 on every line -/
+theorem C15_marker_always {α : Type} [DecidableEq α] (cx : Ctx α) (T : Nat) (term : List α)
+    (rc : List (List α)) :
+    defRc rc ≠ [] ∧
+    (defParaLines cx T term (defRc rc)).length = (defRc rc).length ∧
+    (∀ h0 : 0 < (defParaLines cx T term (defRc rc)).length,
+      (defParaLines cx T term (defRc rc))[0] =
+        [cx.sp, cx.sp] ++ term ++ List.replicate (T - term.length) cx.sp ++ [cx.sp, cx.sp] ++
+          [cx.hy, cx.sp] ++ (defRc rc).getD 0 []) ∧
+    (term.length ≤ T → ∀ (i : Nat) (_ : i < (defRc rc).length)
+        (h : i < (defParaLines cx T term (defRc rc)).length),
+      (defParaLines cx T term (defRc rc))[i].drop (T + 6) = (defRc rc).getD i []) :=
+  ⟨defRc_ne_nil rc, defParaLines_defRc_length cx T term rc,
+    fun h0 => defParaLines_defRc_first cx T term rc h0,
+    fun hT i hi h => defParaLines_drop cx T term hT (defRc rc) i hi h⟩
 
 /-- an empty definitions list produces no output: the editor is returned unchanged -/
 theorem C15_empty {α : Type} [DecidableEq α] (cx : Ctx α) (ed : Editor α) (p w : Int) (o : Options α) :
@@ -12,9 +75,8 @@ theorem C15_empty {α : Type} [DecidableEq α] (cx : Ctx α) (ed : Editor α) (p
   simp [Editor.insertDefTableOpts, List.foldlM]
   rfl
 
-/-- the Options stored on the result are the receiver's -/
-theorem C15_opts (ed r : Editor Int) (p : Int) (d : List (List Int × List Int)) (w : Int) (o : Options Int)
-    (h : ed.insertDefTableOpts cxA p d w o = .ok r) : r.opts = ed.opts :=
-  insertDefTableOpts_opts cxA ed r p d w o h
+/-- total on arbitrary code-point input -/
+theorem C15_total (ed : Editor Int) (p : Int) (d : List (List Int × List Int)) (w : Int) (o : Options Int) :
+    ∃ r, ed.insertDefTableOpts cxA p d w o = .ok r := insertDefTableOpts_total cxA_Sane ed p d w o
 
 end RosedVerif.Props
